@@ -154,6 +154,26 @@ theorem rollback_number_then_set_scripts_refilters :
     (1, 8) ∈ p3.scripts ∧ p3.minF = 8 ∧ p3.records = [] := by
   decide
 
+/-! ## 'no matched blocks pending' must be read from the store (a seeded change of round six) -/
+
+/-- the stale-answer branch of `BlockFiltersProcess` (a `BlockFilters` message that does not start
+right after the filtered height) raises the scripts' numbers to the filtered height when NO record
+is pending.  Deciding that from the in-memory matched blocks - empty after a restart until the
+filter timer has read the record again - raises script 1 to 10 although block 5, which touches it,
+still waits in the record: `get_scripts` overclaims, and the next `set_scripts` that keeps script 1
+rewinds to 10 and loses block 5 for good -/
+theorem stale_rule_by_memory_overclaims :
+    let touches : Nat → Nat → Bool := fun s b => s == 1 && b == 5
+    let g : G := ⟨⟨[(1, 0)], 10, [⟨1, 10, [5]⟩], []⟩, fun _ => 0⟩
+    Inv touches g ∧ filtersWrites g.p 7 3 [] true = [] ∧
+    let p' := applyW g.p (.updateBlockNumber g.p.minF)
+    ¬ Inv touches ⟨p', g.lo⟩ := by
+  intro touches g
+  refine ⟨inv_example_pending, by decide, ?_⟩
+  intro p' h
+  have hs := h.safe (1, 10) (by decide) 5 (by decide) (by decide) (by decide)
+  exact absurd hs (by decide)
+
 /-! ## non-vacuity -/
 
 /-- a state with a pending record, a kept script below it and a command that names another
